@@ -187,10 +187,13 @@ func checkMassiveState(r *evid.Run, pool *wproto.Pool, d *DocState, c *tok.Conc,
 			half := len(doc) / 2
 			fq := mq
 			fq.ReadFail = &half
+			// (the reader's error as it stands, or wrapping context.Canceled / DeadlineExceeded - an HTTP body whose request
+			// was cancelled: an error of the input, whatever it wraps)
+			fq.ErrWrap = []string{"", "canceled", "deadline"}[(d.N/5)%3]
 			fm := pool.Call(fq, 60*time.Second)
 			r.Count("real_calls", 1)
 			if fm.Class == "ok" {
-				r.Mismatch(name+":reader-failure-only-an-error-in-simple-mode", fmt.Sprintf("doc=%q reader fails after %d bytes: massive returned nil, out=%q", doc, half, fm.Out), rep)
+				r.Mismatch(name+":reader-failure-only-an-error-in-simple-mode", fmt.Sprintf("doc=%q reader fails after %d bytes (error wraps %q): massive returned nil, out=%q", doc, half, fq.ErrWrap, fm.Out), rep)
 			}
 		}
 		accept := d.Verdict == "accept" && rooted
